@@ -2,6 +2,7 @@ package props
 
 import (
 	"fmt"
+	"go/token"
 	"sort"
 	"strings"
 
@@ -14,11 +15,11 @@ func init() {
 	register(&Prop{
 		ID: "C03",
 		Explanation: "Structural necessary conditions of 'ACL decisions equal the documented policy semantics' (the part visible in the shape of acl.go / policy.go): " +
-			"(1) default deny: every Allowed=true store in ACL.AllowOperation lies behind the root arm (namespace is under the root ACL's namespace), the help arm, or the operationAllowed test together with the wrapping-TTL bounds; " +
-			"(2) the operation↔capability table extracted from the operation switch equals the documented one (read→read … scan→scan; revoke/renew/rollback→update) and each arm tests and reports the same capability bit; ACL.Capabilities' bit→name chain equals the inverse of cap2Int; the policy parser accepts exactly the capability names of cap2Int and 'deny' overrides; " +
+			"(1) default deny: every Allowed=true store in ACL.AllowOperation lies behind the root arm (namespace is under the root ACL's namespace: the true edge of requestNamespace.HasParent(a.root) with exactly these operands), the help arm, or the operationAllowed test together with the wrapping-TTL bounds; with every req.Operation == <const> test false no policy-arm Allowed=true store is reachable (the default arm denies); " +
+			"(2) the operation↔capability table extracted from the operation switch equals the documented one (read→read … scan→scan; revoke/renew/rollback→update) and each arm tests and reports the same capability bit, every value flowing into operationAllowed is a single-bit test from an arm selected by an operation constant (or the constant false); ACL.Capabilities' bit→name chain equals the inverse of cap2Int; the policy parser accepts exactly the capability names of cap2Int and 'deny' overrides; " +
 			"(3) deny is sticky and everything else is a union when rules for one pattern are merged; " +
 			"(4) the priority comparator of non-exact matches is the documented lexicographic order (first wildcard/glob position, prefix-ness, wildcard count, length, text) — decided by enumerating the closure's CFG paths over the five compared keys — and the caller takes the greatest element after sorting; exact matches are consulted before non-exact ones; " +
-			"(5) rule paths and request paths are namespace-qualified; " +
+			"(5) rule paths and request paths are namespace-qualified, and the qualifying store lies on every path from the creation of a rule object to its append to the policy's paths; " +
 			"(6) ownership: the per-request ACL never aliases mutable state of the cached policy objects — everything inserted into the ACL's rule trees comes from ACLPermissions.Clone or from the trees themselves, and map-typed permission fields are only assigned deep copies — so decisions cannot depend on which ACLs were built earlier.",
 		NotDecided: "equality of decisions over the input space (radix lookups, glob/segment matching, valueInParameterList, parameter-list merging are value-level); pagination arithmetic; templated policies.",
 		Run:        runC03,
@@ -51,6 +52,38 @@ func runC03(c *eng.Ctx, thorough bool) {
 			}
 			if c.Floor(f, "root-arm Allowed store", len(rootStores), 1) {
 				c.Cut(f, "ret.Allowed = true (root ACL)", rootStores, eng.G(f, `^namespace\.\(\*Namespace\)\.HasParent\(\)$`, true), nil)
+				// operands of that test: receiver = the request's namespace (from the
+				// context), argument = the root ACL's namespace. Only the true edge of
+				// a HasParent call with exactly these operands counts; the converse
+				// relation (a.root under the request namespace) must not open the arm.
+				under := eng.Guard{Desc: "requestNS.HasParent(a.root) with requestNS = namespace.FromContext(ctx)"}
+				for _, hp := range eng.Calls(f, `^namespace\.\(\*Namespace\)\.HasParent$`) {
+					a := hp.Common().Args
+					cv, isCall := hp.(*ssa.Call)
+					if !isCall || len(a) != 2 {
+						continue
+					}
+					if ok, _, _ := eng.OriginsMatch(a[0], `^call:namespace\.FromContext#0$`); !ok {
+						continue
+					}
+					if ok, _, _ := eng.OriginsMatch(a[1], `^field:a\.root$`); !ok {
+						continue
+					}
+					under.Edges = append(under.Edges, eng.BoolEdges(cv, true)...)
+				}
+				c.Cut(f, "ret.Allowed = true (root ACL): namespace relation operands", rootStores, under, nil)
+			}
+			// default arm: a request whose operation matches none of the
+			// req.Operation == <const> tests is never allowed by a non-root ACL
+			c.Clause("R2", "C03.1")
+			noOp := map[string]bool{`^req\.Operation == "[^"]*"$`: false, `^a\.root == nil$`: true}
+			nOpTests := len(eng.CondEdges(f, `^req\.Operation == "[^"]*"$`, true))
+			if c.Floor(f, "req.Operation == <const> tests", nOpTests, 10) {
+				if h := eng.Reach(eng.Query{Fn: f, Assume: noOp, Target: eng.IsTarget(other)}); h != nil {
+					c.Violation(f, "default arm (operation outside the table) never allows", h.Instr.Pos(), "an Allowed=true store is reachable for a non-root ACL when the operation equals none of the constants the function tests: operations outside the documented table are not denied", h.Witness)
+				} else {
+					c.OK(f, "default arm (operation outside the table) never allows", f.Pos(), fmt.Sprintf("with all %d req.Operation tests false no policy-arm Allowed=true store (%d) is reachable", nOpTests, len(other)))
+				}
 			}
 			// non-root, non-help: operationAllowed plus wrapping TTL bounds
 			asm := map[string]bool{`^a\.root == nil$`: true, `^req\.Operation == "help"$`: false}
@@ -99,7 +132,89 @@ func runC03(c *eng.Ctx, thorough bool) {
 		if n == 0 {
 			c.Violation(f, "rule path is namespace-qualified", f.Pos(), "parsePaths no longer prefixes rule paths with the policy's namespace path", nil)
 		}
+		// every rule handed to the result is qualified: between the creation of a
+		// rule object and its append to the policy's paths the qualifying store
+		// pc.Path = result.Namespace.Path + pc.Path is executed on every path
+		c.Clause("R3", "C03.5")
+		nApp := 0
+		for _, ap := range eng.Calls(f, `^append$`) {
+			a := ap.Common().Args
+			if ph, ok := a[0].(*ssa.Phi); !ok || ph.Comment != "paths" {
+				continue
+			}
+			for _, rule := range appendedAllocs(a[1]) {
+				nApp++
+				var qual []ssa.Instruction
+				for _, st := range eng.Stores(f, `\.Path$`) {
+					fa, ok := st.Addr.(*ssa.FieldAddr)
+					if !ok || fa.X != ssa.Value(rule) {
+						continue
+					}
+					bo, ok := st.Val.(*ssa.BinOp)
+					if !ok || bo.Op != token.ADD || eng.ExprDeep(bo.X) != "result.Namespace.Path" {
+						continue
+					}
+					if ld, ok := bo.Y.(*ssa.UnOp); !ok || ld.Op != token.MUL || eng.Expr(ld.X) != eng.Expr(st.Addr) {
+						continue
+					}
+					qual = append(qual, st)
+				}
+				site := "every appended rule is namespace-qualified"
+				if h := eng.Reach(eng.Query{Fn: f, StartAfter: rule, Barriers: qual, Target: func(in ssa.Instruction) bool { return in == ssa.Instruction(ap) }}); h != nil {
+					fact := "a rule can be appended to the policy's paths without passing pc.Path = result.Namespace.Path + pc.Path: it would speak about another namespace's paths"
+					if len(qual) == 0 {
+						fact = "no store Path = result.Namespace.Path + Path exists for the appended rule object; " + fact
+					}
+					c.Violation(f, site, ap.Pos(), fact, h.Witness)
+				} else {
+					c.OK(f, site, ap.Pos(), fmt.Sprintf("every path from the creation of the rule object to append(paths, &pc) passes one of the %d qualifying store(s)", len(qual)))
+				}
+			}
+		}
+		c.Floor(f, "rule objects appended to paths", nApp, 1)
 	}
+}
+
+// appendedAllocs: the local objects whose address is an element of the
+// variadic slice v handed to append (append(xs, &a, &b) -> [a b]).
+func appendedAllocs(v ssa.Value) []*ssa.Alloc {
+	sl, ok := v.(*ssa.Slice)
+	if !ok {
+		return nil
+	}
+	arr, ok := sl.X.(*ssa.Alloc)
+	if !ok || arr.Referrers() == nil {
+		return nil
+	}
+	var out []*ssa.Alloc
+	for _, r := range *arr.Referrers() {
+		ia, ok := r.(*ssa.IndexAddr)
+		if !ok || ia.Referrers() == nil {
+			continue
+		}
+		for _, rr := range *ia.Referrers() {
+			if st, ok := rr.(*ssa.Store); ok && st.Addr == ia {
+				if a, ok := st.Val.(*ssa.Alloc); ok {
+					out = append(out, a)
+				}
+			}
+		}
+	}
+	return out
+}
+
+func posOfBlock(b *ssa.BasicBlock) token.Pos {
+	for _, in := range b.Instrs {
+		if in.Pos().IsValid() {
+			return in.Pos()
+		}
+	}
+	for _, p := range b.Preds {
+		if len(p.Instrs) > 0 && p.Instrs[len(p.Instrs)-1].Pos().IsValid() {
+			return p.Instrs[len(p.Instrs)-1].Pos()
+		}
+	}
+	return b.Parent().Pos()
 }
 
 // c03OpTable extracts (operation constants -> capability mask tested, mask
@@ -138,11 +253,20 @@ func c03OpTable(c *eng.Ctx, f *ssa.Function) {
 		if lk, ok := grantPhi.Edges[i].(*ssa.Lookup); ok {
 			gmask = eng.Expr(lk.Index)
 		}
-		if mask == "" {
-			continue // the initial 'false' edge
-		}
 		body := allowedPhi.Block().Preds[i]
-		for _, op := range opsLeadingTo(body) {
+		if mask == "" {
+			// an edge that is not a (capabilities & bit) > 0 test may only be the initial constant false
+			if cst, ok := e.(*ssa.Const); ok && eng.Expr(cst) == "false" {
+				continue
+			}
+			c.Violation(f, "optable{edge}", posOfBlock(body), "operationAllowed receives "+eng.ExprDeep(e)+" on an edge of the operation switch: neither a documented single-bit test (capabilities & bit) > 0 nor the constant false", nil)
+			continue
+		}
+		arms := opsLeadingTo(body)
+		if len(arms) == 0 {
+			c.Violation(f, "optable{edge}", posOfBlock(body), "a capability test ("+mask+") feeds operationAllowed from an arm that is not selected by a req.Operation == <const> test (the default arm?)", nil)
+		}
+		for _, op := range arms {
 			got[op] = [2]string{mask, gmask}
 		}
 	}
